@@ -331,7 +331,13 @@ func c12GenMatch(r *Rng, tier string, n int) []Case {
 		names = c12Strings([]string{"a", "b", "B"}, 4)
 		pats = c12Patterns([]string{"a", "b", "A", "ab", ""}, 4)
 	} else {
-		names = c12Strings([]string{"a", "b", "B"}, 4)
+		// quick tier: every name of length <= 4 over {a,b} and <= 3 over {a,b,B}
+		names = c12Strings([]string{"a", "b", "B"}, 3)
+		for _, s := range c12Strings([]string{"a", "b"}, 4) {
+			if len(s) == 4 {
+				names = append(names, s)
+			}
+		}
 		pats = c12Patterns([]string{"a", "B", "ab"}, 3)
 		pats = append(pats, []string{"*", "a", "*", "B"}, []string{"ab", "*", "a", "*"}, []string{"*", "ab", "*", "ab"}, []string{"a", "*", "B", "*"})
 	}
